@@ -38,6 +38,8 @@ AbstractParameterAliasable::AbstractParameterAliasable(const AbstractParameterAl
 
 AbstractParameterAliasable& AbstractParameterAliasable::operator=(const AbstractParameterAliasable& ap)
 {
+  if (this == &ap)
+    return *this;
   AbstractParametrizable::operator=(ap);
   independentParameters_.reset();
   aliasListenersRegister_.clear();
